@@ -50,7 +50,7 @@ def main():
     pls = [0, 1, 15, 16, 17, 33, 64, 100] if not thorough else [0, 1, 2, 15, 16, 17, 31, 32, 33, 63, 64, 65, 100, 127, 129, 255, 257, 300]
     shapes = [('nil', None, None), ('empty', 0, 0), ('exact', 3, 3), ('spare-enough', 3, None), ('spare-large', 3, 400), ('spare-short', 3, 5), ('zero-len-cap', 0, None)]
     ck.bounds.append('Seal/Open through the Go glue and the real assembly: plaintext lengths %s x destination shapes %s x tag 12/16, in-place idiom dst=in[:0]; up to 3 data bytes per buffer symbolic (first/middle/last), the others fixed by VERIF_SEED' % (pls, [s[0] for s in shapes]))
-    ck.outside.append('lengths above %d; arm64 glue' % pls[-1])
+    ck.outside.append('lengths above %d' % pls[-1])
 
     eng = new_engine(prog, cando_asm=True)
     asmbridge.install(eng, L)
@@ -323,6 +323,18 @@ func TestVerifReplay(t *testing.T) {
         ck.record('contract_replay', 'violated', 'AEAD buffer contract fails on the real build: ' + (out or '')[-200:].replace('\n', ' '))
         ck.violation('aead-contract', 'AEAD buffer contract fails on the real build (dst with spare capacity, in-place, repeated Open)', path)
     ck.assumptions.append('sm3 Sum append rule is obligation sum_step of C04')
+    # ------------------------------------------------------------ arm64: Go glue (go/ssa GOARCH=arm64) + NEON leaf routines (arm64 listing)
+    import arm64lib
+    a64fails = {}
+    t_a64 = time.time()
+    try:
+        a64env = arm64lib.Env('c10')
+        n_a64 = arm64lib.c10(ck, a64env, lambda k, d, w=None: a64fails.setdefault(k, []).append((d, w)), thorough)
+    except (asmsym.AsmUnsupported, Unsupported, RuntimeError) as ex:
+        n_a64 = 0
+        a64fails.setdefault('a64:unsupported', []).append(('arm64 part not completed: %s' % ex, None))
+    if not arm64lib.report(ck, a64fails):
+        ck.record('arm64', 'proved', 'arm64 glue: append contract for every destination shape, inputs unchanged (%d cases)' % n_a64, secs=time.time() - t_a64)
     ck.finish()
 
 
